@@ -14,6 +14,13 @@ import (
 func StreamBatch(stream <-chan *gdbi.GraphElement, batchSize int, graph string, vertexAdd func([]*gdbi.Vertex) error, edgeAdd func([]*gdbi.Edge) error) error {
 
 	var bulkErr *multierror.Error
+	//the two loader goroutines and the validation loop below all report errors
+	var errLock sync.Mutex
+	addErr := func(err error) {
+		errLock.Lock()
+		bulkErr = multierror.Append(bulkErr, err)
+		errLock.Unlock()
+	}
 	vertCount := 0
 	edgeCount := 0
 	vertexBatchChan := make(chan []*gdbi.Vertex)
@@ -26,7 +33,7 @@ func StreamBatch(stream <-chan *gdbi.GraphElement, batchSize int, graph string, 
 			if len(vBatch) > 0 {
 				err := vertexAdd(vBatch)
 				if err != nil {
-					bulkErr = multierror.Append(bulkErr, err)
+					addErr(err)
 				}
 			}
 		}
@@ -39,7 +46,7 @@ func StreamBatch(stream <-chan *gdbi.GraphElement, batchSize int, graph string, 
 			if len(eBatch) > 0 {
 				err := edgeAdd(eBatch)
 				if err != nil {
-					bulkErr = multierror.Append(bulkErr, err)
+					addErr(err)
 				}
 			}
 		}
@@ -51,10 +58,7 @@ func StreamBatch(stream <-chan *gdbi.GraphElement, batchSize int, graph string, 
 
 	for element := range stream {
 		if element.Graph != graph {
-			bulkErr = multierror.Append(
-				bulkErr,
-				fmt.Errorf("unexpected graph reference: %s != %s", element.Graph, graph),
-			)
+			addErr(fmt.Errorf("unexpected graph reference: %s != %s", element.Graph, graph))
 		} else if element.Vertex != nil {
 			if len(vertexBatch) >= batchSize {
 				vertexBatchChan <- vertexBatch
@@ -63,10 +67,7 @@ func StreamBatch(stream <-chan *gdbi.GraphElement, batchSize int, graph string, 
 			vertex := element.Vertex
 			err := vertex.Validate()
 			if err != nil {
-				bulkErr = multierror.Append(
-					bulkErr,
-					fmt.Errorf("vertex validation failed: %v", err),
-				)
+				addErr(fmt.Errorf("vertex validation failed: %v", err))
 			} else {
 				vertexBatch = append(vertexBatch, vertex)
 				vertCount++
@@ -88,10 +89,7 @@ func StreamBatch(stream <-chan *gdbi.GraphElement, batchSize int, graph string, 
 				err = fmt.Errorf("'to' cannot be blank")
 			}
 			if err != nil {
-				bulkErr = multierror.Append(
-					bulkErr,
-					fmt.Errorf("edge validation failed: %v", err),
-				)
+				addErr(fmt.Errorf("edge validation failed: %v", err))
 			} else {
 				edgeBatch = append(edgeBatch, edge)
 				edgeCount++
